@@ -386,4 +386,23 @@ def run(F, rep):
         rcv = rcv[:-2] if rcv.endswith('->') else rcv
         rep.check(any(rcv.startswith(m_) for m_ in moved), 'C06.O2', 'flattenComponent|%s' % render(c)[:50], fcp.where(c), 'the references are corrected on `%s` but `%s` is what is transferred' % (rcv, sorted(moved)), 'corrected on the transferred object')
 
+    # ------------------------------------------------------------------ F2: imports are instantiated, never re-pointed
+    rep.rule('C06.F2', 'the importer never re-points an import: ImportedEntity::setImportSource / setImportReference are not called (on components or units) anywhere in importer.cpp. Flattening replaces a placeholder by a copy of what it names, '
+                       'hop by hop; jumping to the end of a chain of imports drops whatever the intermediate models add on the way (components they encapsulate under the re-exported import, with their connections and units)')
+    callers = {}
+    for g_ in F.funcs.values():
+        if '/src/' not in g_.file:
+            continue
+        for c_ in g_.walk():
+            if c_.get('k') == 'Call' and c_.get('mc') and c_.get('fn') in ('setImportSource', 'setImportReference') and (c_.get('cls') or '').split('::')[-1] in ('ImportedEntity', 'Component', 'Units'):
+                callers.setdefault(g_.file.split('/')[-1], []).append((g_, c_))
+    n_f2 = sum(len(v) for v in callers.values())
+    if n_f2 < 4:
+        raise AnalysisBroken('C06.F2: only %d calls of ImportedEntity::setImportSource/setImportReference found in the library (parser, clone, ... confirmed): the detector would not see one in importer.cpp either' % n_f2)
+    for g_, c_ in callers.get('importer.cpp', []):
+        a0 = nth_arg(c_, 0)
+        if a0 is not None and render(a0) in ('nullptr',):
+            continue
+        rep.fail('C06.F2', '%s|%s' % (g_.short.split('::')[-1], render(c_)[:60]), g_.where(c_), '%s re-points an import with `%s` instead of instantiating what it names' % (g_.short, render(c_)[:70]))
+    rep.ok('C06.F2', 'scan', None, '%d calls of setImportSource/setImportReference on entities in %s; none in importer.cpp' % (n_f2, sorted(callers)))
 
